@@ -11,7 +11,7 @@
    Still open: that in_D is preserved, and that every legal move of a position in D passes refines_b
    (makemove_refines_statement). *)
 From Coq Require Import NArith ZArith List Bool.
-From Rawr Require Import Consts Bits Magic Position MoveGen MakeMove MakeStages Rules Abs AbsFacts MakeFacts MakeAbs CastleFacts CastleAbs GenSane Closure.
+From Rawr Require Import Consts Bits Magic Position MoveGen MakeMove MakeStages Rules Abs AbsFacts MakeFacts MakeAbs CastleFacts CastleAbs GenSane Closure ClosureNull.
 Import ListNotations.
 Local Open Scope N_scope.
 
@@ -103,6 +103,14 @@ Proof. intros ms p I H. split; [exact (inv_run ms p I H)|exact (run_refines ms p
 Example C02_invariant_startpos : inv_b startpos = true /\ inv_b (after castle_line) = true.
 Proof. split; vm_compute; reflexivity. Qed.
 
+(* the same with null moves in the sequence (the side passing must not be in check): the invariant is kept and the abstract
+   state follows the rules, a null move being `pass_turn` *)
+Theorem C02_null_move_keeps_the_invariant : forall p, Inv p -> in_check_them (makenull p) = false -> Inv (makenull p).
+Proof. exact null_inv. Qed.
+Theorem C02_every_sequence_with_null_moves_refines : forall os p, Inv p -> legal_ops p os ->
+  Inv (fold_left play_op os p) /\ abs_state (fold_left play_op os p) = spec_ops p os (abs_state p).
+Proof. intros os p I H. split; [exact (inv_ops os p I H)|exact (ops_refine os p I H)]. Qed.
+
 Print Assumptions C02_makenull_spec.
 Print Assumptions C02_makemove_refines_noncastling.
 Print Assumptions C02_makemove_is_its_stages.
@@ -113,3 +121,5 @@ Print Assumptions C02_flip_keeps_board.
 Print Assumptions C02_invariant_is_kept.
 Print Assumptions C02_executable_invariant_sound.
 Print Assumptions C02_every_sequence_refines.
+Print Assumptions C02_null_move_keeps_the_invariant.
+Print Assumptions C02_every_sequence_with_null_moves_refines.
